@@ -721,6 +721,23 @@ func (e *Env) call(x *ast.CallExpr) *Val {
 			return e.errorf("iface: unknown type")
 		}
 		return fx.makeIface(e.st, &Val{T: v.T, Ty: t}, types.NewInterfaceType(nil, nil))
+	case "visited":
+		// visited(k) / visited(n, k): key k was already delivered by the (n-th) map range loop
+		n := 1
+		karg := 0
+		if len(x.Args) == 2 {
+			if lit, ok := x.Args[0].(*ast.BasicLit); ok {
+				n, _ = strconv.Atoi(lit.Value)
+			}
+			karg = 1
+		}
+		k := argv(karg)
+		name := fmt.Sprintf("RV$%d", n)
+		cs, ok := fx.compSort[name]
+		if !ok {
+			return e.errorf("visited: no map range loop %d", n)
+		}
+		return &Val{T: "(select " + fx.heapGet(e.st, name, cs) + " " + k.T + ")", Ty: boolT}
 	case "upd":
 		a, k, v := argv(0), argv(1), argv(2)
 		kt, vt := k.T, v.T
@@ -739,6 +756,18 @@ func (e *Env) call(x *ast.CallExpr) *Val {
 	case "max":
 		a, b := argv(0), argv(1)
 		return &Val{T: "(ite (>= " + a.T + " " + b.T + ") " + a.T + " " + b.T + ")", Ty: pickTy(a, b)}
+	case "strings.HasPrefix":
+		a, b := argv(0), argv(1)
+		return &Val{T: fx.hasPrefix(a.T, b.T), Ty: boolT}
+	case "strings.HasSuffix":
+		a, b := argv(0), argv(1)
+		return &Val{T: fx.hasSuffix(a.T, b.T), Ty: boolT}
+	case "strings.Contains":
+		a, b := argv(0), argv(1)
+		return &Val{T: fx.strContains(a.T, b.T), Ty: boolT}
+	case "strings.Index":
+		a, b := argv(0), argv(1)
+		return &Val{T: fx.strIndex(a.T, b.T), Ty: intT}
 	case "prefixof":
 		a, b := argv(0), argv(1)
 		return &Val{T: fx.hasPrefix(b.T, a.T), Ty: boolT}
@@ -963,8 +992,8 @@ func (fx *FuncCtx) unchangedTerm(now, pre *State) string {
 	}
 	sort.Strings(names)
 	for _, c := range names {
-		if strings.HasPrefix(c, "G$rd_pos") || strings.HasPrefix(c, "G$it_") || strings.HasPrefix(c, "G$put_") {
-			continue // stream cursors, iterators and the ghost call log are not stored state
+		if strings.HasPrefix(c, "G$rd_pos") || strings.HasPrefix(c, "G$it_") || strings.HasPrefix(c, "G$put_") || strings.HasPrefix(c, "RV$") {
+			continue // stream cursors, iterators, the ghost call log and iteration bookkeeping are not stored state
 		}
 		t := now.Heap[c]
 		was, ok := pre.Heap[c]
